@@ -7,7 +7,7 @@ from .. import land
 
 LEVEL = 'exploration'
 ENGINE = 'SEQ'
-TECHNIQUE = 'bounded exhaustive enumeration of call histories (wait/terminate/is_alive/close with timeouts 0 and small, with and without force) over every target behaviour (cooperative, swallowing exceptions, blocked in sleep, holding the interpreter lock in C, SIGSTOPped, finished, finished but kept alive by a thread left behind, dying of an exception, not run, idle) and every worker class, on real workers'
+TECHNIQUE = 'bounded exhaustive enumeration of call histories (wait/terminate/is_alive/close with timeouts 0 and small, with and without force) over every target behaviour (cooperative, swallowing exceptions, blocked in sleep, holding the interpreter lock in C, SIGSTOPped, finished, ended unobserved with the k-th control message of the parent finding the connection gone, finished but kept alive by a thread left behind, dying of an exception, not run, idle) and every worker class, on real workers'
 LEVEL_TEXT = ('every history up to the depth bound over the call alphabet x behaviours x the six classes is executed on real workers; per-call oracle: returns within 4*timeout+3 s, never raises, a True answer (or is_alive False) is checked against the real state of the child (thread not alive / pid gone or zombie), after the first observation of death every call answers True at once, terminate(force=True) on process/remote kinds leaves the child dead on return')
 LEVEL_NOTE = 'wall-clock bounds are generous (3 s + 4*timeout) and scaled by a measured load factor; thread kinds cannot run the behaviours that would freeze or stop the checker process itself; terminate(force=True) is not issued where its documented last resort is to SIGTERM the calling process'
 
@@ -28,6 +28,11 @@ def behaviours(kind, quick):
     if len(kind) == 2:
         b.append('idle')
     b += ['dying', 'dying-now']       # the target raises: the calls meet a worker going down on its own (after / without a rendezvous)
+    if kind in ('R', 'PR'):
+        # the worker has ended on its own, unobserved; the k-th message the parent sends on the control connection finds it gone
+        b += ['ended+ctrl-send-1-fails']
+        # the worker is ended by a graceful request; the courtesy message which follows the answer finds the connection gone
+        b += ['cooperative+release-fails'] + (['idle+release-fails'] if len(kind) == 2 else [])
     return b
 
 
@@ -35,7 +40,7 @@ def alphabet(kind, beh, quick):
     a = ['w0', 'wt', 't0', 'tt', 'alive']
     if kind in ('P', 'PP'):
         a.append('tf')
-    if kind in ('R', 'PR') and beh in ('finished', 'not-run', 'cooperative', 'idle', 'dying', 'dying-now'):
+    if kind in ('R', 'PR') and (beh in ('finished', 'not-run', 'cooperative', 'idle', 'dying', 'dying-now') or '+' in beh):
         # on the parent side force=True ends in SIGTERM to the calling process when the forwarding thread does not end
         a.append('tf')
     if not quick:
@@ -54,11 +59,14 @@ def scripts(quick, tmp):
             d = depth + (1 if (not quick and kind in ('T', 'PT')) else 0)      # thread kinds are cheap: one level deeper
             for L in range(1, d + 1):
                 for hist in itertools.product(alpha, repeat=L):
+                    if beh.endswith('+release-fails') and hist[0] not in ('tt', 'tf'):
+                        continue      # the second message on the control connection is the release only after a graceful request that worked
                     n += 1
                     rf = os.path.join(tmp, 'ready.%d' % n)
                     target = {'cooperative': 'cooperative', 'stubborn': 'stubborn', 'long_sleep': 'long_sleep', 'gil_hog': 'gil_hog',
                               'stopped': 'cooperative', 'finished': 'quick_ret', 'not-run': 'quick_ret', 'idle': 'quick_ret',
-                              'dying': 'raise_soon', 'dying-now': 'raise_soon', 'lingering': 'linger_ret', 'sigign': 'stubborn_sigign'}[beh]
+                              'dying': 'raise_soon', 'dying-now': 'raise_soon', 'lingering': 'linger_ret', 'sigign': 'stubborn_sigign',
+                              'ended+ctrl-send-1-fails': 'raise_soon', 'cooperative+release-fails': 'cooperative', 'idle+release-fails': 'quick_ret'}[beh]
                     create = {'op': 'create', 'var': 'w', 'kind': kind, 'target': target, 'kwargs': {'ready_file': rf}}
                     sc = [create]
                     if beh == 'not-run':
@@ -70,11 +78,18 @@ def scripts(quick, tmp):
                             sc += [{'op': 'call', 'var': 'w', 'method': 'wait', 'args': [10]}]
                     elif beh == 'idle':
                         pass
+                    elif beh == 'idle+release-fails':
+                        sc += [{'op': 'fail_ctrl_send', 'var': 'w', 'k': 2}]
                     else:
                         if pers:
                             sc += [{'op': 'call', 'var': 'w', 'method': 'enqueue', 'args': [1]}]
                         if beh != 'dying-now':
                             sc += [{'op': 'wait_file', 'path': rf, 'timeout': 10}]
+                        if beh.startswith('ended+'):
+                            sc += [{'op': 'sleep', 's': 0.3}, {'op': 'child_dead', 'var': 'w', 'kind': kind, 'within': 5.0},
+                                   {'op': 'fail_ctrl_send', 'var': 'w', 'k': 1}]
+                        if beh == 'cooperative+release-fails':
+                            sc += [{'op': 'fail_ctrl_send', 'var': 'w', 'k': 2}]
                         if beh == 'stopped':
                             sc += [{'op': 'kill', 'var': 'w', 'sig': 'STOP'}, {'op': 'sleep', 's': 0.05}]
                         if beh == 'lingering':
@@ -103,7 +118,7 @@ def judge(case, obs, load):
         if s.get('hang') or 'exc' in s or s.get('ret') is False:
             return [('harness', {'prep': s})]
     kind, beh = case['kind'], case['behaviour']
-    known_dead = beh in ('finished', 'not-run')
+    known_dead = beh in ('finished', 'not-run') or beh.startswith('ended+')
     i = case['npre']
     for h in case['history']:
         st = steps[i]
